@@ -89,8 +89,11 @@ FBits(t, f) == IF f.size = Dyn THEN Dyn ELSE f.size * Unit(t)
 
 \* size in bits of one element of the field's type (the field itself if it is not an array);
 \* Dyn when it is not fixed at compile time
+\* explicit `:w' of a field: f.w > 0 is the width, f.w = -1 stands for an explicit `:0', f.w = 0 for none
+HasExplicit(f) == f.w # 0
+ExplicitW(f) == IF f.w = -1 THEN 0 ELSE f.w
 ElemBits(prog, t, f) ==
-  IF f.w > 0 THEN f.w
+  IF HasExplicit(f) THEN ExplicitW(f)
   ELSE IF f.ty = "Flag" THEN 1                                  \* "A Flag is a 1-bit boolean value"
   ELSE IF f.ty \in Prelude THEN (IF Len(f.dims) = 0 THEN FBits(t, f) ELSE Dyn)
   ELSE LET u == prog.types[TypeIdx(prog, f.ty)] IN
@@ -144,7 +147,7 @@ ScalarWidthFailures(prog, ti, t, f) ==
 \* field's size; a composite type needs at least its intrinsic size
 SizeMatchFailures(prog, ti, t, f) ==
   IF Len(f.dims) # 0 \/ FBits(t, f) = Dyn THEN {}
-  ELSE IF f.w > 0 THEN (IF f.w # FBits(t, f) THEN {F("explicit_size_mismatch", ti)} ELSE {})
+  ELSE IF HasExplicit(f) THEN (IF ExplicitW(f) # FBits(t, f) THEN {F("explicit_size_mismatch", ti)} ELSE {})
   ELSE IF f.ty \notin Prelude /\ KindOf(prog, f.ty) \in {"struct", "bits"} THEN
        LET s == FixedSize(prog.types[TypeIdx(prog, f.ty)]) IN
        IF s # Dyn /\ FBits(t, f) < s THEN {F("field_too_small", ti)} ELSE {}
